@@ -60,7 +60,7 @@ ENV["CARGO_NET_OFFLINE"] = "true"
 ENV.setdefault("CARGO_TERM_COLOR", "never")
 
 MAX_RESTARTS = 12
-MAX_PROBLEMS = 6          # distinct problem groups reported
+MAX_PROBLEMS = 8          # distinct problem groups reported
 MAX_LINES = 8             # failing queries carried by one replay
 
 
@@ -281,6 +281,66 @@ def run_probes(hdir):
 
 
 # ----------------------------------------------------------------------------------------------
+# optional: a small subset under Miri (thorough tier)
+# ----------------------------------------------------------------------------------------------
+def run_miri(hdir, cases, seed, per_family=4, budget_s=420):
+    """Re-run a stratified sample of the cases under `cargo +nightly miri run`.  Returns
+    (status string, sampled case count, list of problems)."""
+    import random
+    rng = random.Random(seed)
+    fams = collections.OrderedDict()
+    for c in cases:
+        if c.query.startswith("case") and _chain_len(c.query.split()[2]) >= 3:
+            fams.setdefault(_family(c.query) + "/" + c.query.split()[5], []).append(c)
+    sample = []
+    for f, cs in fams.items():
+        sample += rng.sample(cs, min(per_family, len(cs)))
+    zs = [c for c in cases if c.query.startswith("zst ")]
+    sample += rng.sample(zs, min(12, len(zs)))
+    if not sample:
+        return "no cases", 0, []
+    path = os.path.join(WORK, "conv-miri.cases")
+    with open(path, "w") as f:
+        for c in sample:
+            f.write(c.query + "\n")
+    env = dict(ENV)
+    env["MIRIFLAGS"] = "-Zmiri-disable-isolation -Zmiri-ignore-leaks"   # the tracker quarantines (leaks) watched blocks
+    outp = os.path.join(WORK, "conv-miri.out")
+    try:
+        with open(outp, "w") as f:
+            p = subprocess.run(["cargo", "+nightly", "miri", "run", "--offline", "--", "--replay", path], cwd=hdir, env=env,
+                               stdout=f, stderr=subprocess.PIPE, timeout=budget_s, text=True, errors="replace")
+        rc, err = p.returncode, p.stderr
+    except subprocess.TimeoutExpired:
+        return f"skipped: did not finish within {budget_s}s", len(sample), []
+    except OSError as e:
+        return f"skipped: {e!r}", len(sample), []
+    got, last, monitors = {}, None, []
+    for line in open(outp, errors="replace"):
+        if line.startswith("S "):
+            last = line[2:].rstrip("\n").partition(" ")[2]
+        elif line.startswith("A ") and last:
+            got[last] = line[2:].rstrip("\n").partition(" ")[2]
+        elif line.startswith("M ") and last:
+            monitors.append((last, line[2:].rstrip("\n").partition(" ")[2]))
+    problems = []
+    if rc != 0 and "Undefined Behavior" not in err and not got:
+        return "skipped: miri could not run offline: " + " ".join(err.strip().splitlines()[-2:])[:200], len(sample), []
+    if rc != 0:
+        ub = [l for l in err.splitlines() if "error" in l][:3]
+        text = f"C19 under Miri: `{last}` stops with {' / '.join(ub)[:300]}"
+        problems.append(dict(name="conv-miri-ub", text=text, failing_input=True, header=[text] + err.strip().splitlines()[-30:], lines=[last or ""]))
+    for q, m in monitors[:3]:
+        problems.append(dict(name="conv-miri-monitor", text=f"C19 under Miri: monitor fired for `{q}`: {m}", failing_input=True, header=[m], lines=[q]))
+    want = {c.query: c.answer for c in sample}
+    for q, a in got.items():
+        if want.get(q) != a:
+            problems.append(dict(name="conv-miri-diff", text=f"C19 under Miri: `{q}` answers `{a}`, natively `{want.get(q)}`", failing_input=True, header=[], lines=[q]))
+            break
+    return f"ran {len(got)}/{len(sample)} cases, exit {rc}", len(sample), problems
+
+
+# ----------------------------------------------------------------------------------------------
 _NUM = re.compile(r"0x[0-9a-f]+|\d+")
 
 
@@ -343,14 +403,14 @@ def analyse(tier, seed, config, cases, counts, crashes, model_ans, count_ans, pr
         f = _family(c.query)
         if c.monitors:
             n_monitor_cases += 1
-            sig = "monitor|" + f + "|" + _sig(c.monitors[0])
+            sig = "monitor|" + _sig(c.monitors[0])
             groups.setdefault(sig, dict(kind="monitor", cases=[]))["cases"].append((c, m))
         elif c.answer != m or not c.ended:
             n_disagree += 1
             kind = "typing" if w[0] == "ill" else "diff"
-            sig = kind + "|" + f + "|" + _sig(f"{c.answer} / {m}")
-            if sig not in groups and sum(1 for s in groups if s.startswith(kind + "|" + f)) >= 2:
-                sig = kind + "|" + f + "|other"
+            sig = kind + "|" + _sig(f"{c.answer} / {m}")
+            if sig not in groups and sum(1 for s in groups if s.startswith(kind + "|")) >= 6:
+                sig = kind + "|other"
             groups.setdefault(sig, dict(kind=kind, cases=[]))["cases"].append((c, m))
     order = {"monitor": 0, "diff": 1, "typing": 2}
     ordered = sorted(groups.items(), key=lambda kv: (order[kv[1]["kind"]], -len(kv[1]["cases"])))
@@ -484,11 +544,19 @@ def _go(prop, tier, seed, only=None, replay_file=None, tag="run"):
                                    failing_input=False, header=[config or ""], lines=[])],
                     evaluations=len(cases), distinct_nontrivial=0, disagreements_checked=0)
     n, k = len(cases), len(counts)
+    miri_status = None
+    if tier == "thorough" and not (only or replay_file):
+        t = time.time()
+        miri_status, _n, mp = run_miri(harness_dir(), cases, seed)
+        problems += mp
+        timings["miri"] = round(time.time() - t, 1)
     if probes is not None:
         probes = (probes, dict(zip(probe_queries, ans[n + k:])))
     t = time.time()
     res = analyse(tier, seed, config, cases, counts, crashes, ans[:n], ans[n:n + k], probes, timings)
     res["problems"] = problems + res["problems"]
+    if miri_status is not None:
+        res["summary"]["conv_C19"]["miri_subset"] = miri_status
     timings["compare"] = round(time.time() - t, 1)
     return res
 
